@@ -57,6 +57,9 @@ func TestC16(t *testing.T) {
 		if p.PreTest {
 			pcfg["preTestServe"] = true
 		}
+		if p.Chatter {
+			pcfg["chatterAfterMs"] = 250
+		}
 		if p.TLS == "provider" {
 			cp, kp, _ := vp.GenCert()
 			os.WriteFile(filepath.Join(d, "cert.pem"), cp, 0o600)
@@ -143,7 +146,7 @@ func TestC16(t *testing.T) {
 		case line := <-lineCh:
 			// serving: connect at once to the announced address
 			parts := strings.Split(strings.TrimSpace(line), "|")
-			if len(parts) >= 4 {
+			if len(parts) >= 4 && !p.Chatter { // (chatter cases: no host ever connects)
 				t0 := time.Now()
 				conn, err := net.DialTimeout(parts[2], parts[3], 3*time.Second)
 				o.DialMs = time.Since(t0).Milliseconds()
@@ -155,6 +158,9 @@ func TestC16(t *testing.T) {
 			}
 			o.Sockets = sockets(d)
 			time.Sleep(300 * time.Millisecond) // anything else go-plugin writes to the real stdout would show up
+			if p.Chatter {
+				time.Sleep(700 * time.Millisecond)
+			}
 			syscall.Kill(-cmd.Process.Pid, syscall.SIGKILL)
 			<-exitCh
 		case err := <-exitCh:
